@@ -1,0 +1,45 @@
+//! Verification hooks (compiled only with `--cfg decaf377_verif`).
+//!
+//! `isqrt_hint` lets a test harness play a malicious prover: it may replace the
+//! out-of-circuit hint `(was_square, y)` computed inside `FqVarExtension::isqrt`
+//! while every dependent witness is still derived by the real gadget code.
+extern crate std;
+
+use core::cell::RefCell;
+
+use ark_std::boxed::Box;
+
+use crate::Fq;
+
+/// `(call_index, den, honest_was_square, honest_y) -> (was_square, y)`
+pub type IsqrtHintOverride = Box<dyn FnMut(usize, Fq, bool, Fq) -> (bool, Fq)>;
+
+std::thread_local! {
+    static ISQRT_OVERRIDE: RefCell<Option<IsqrtHintOverride>> = RefCell::new(None);
+    static ISQRT_CALLS: RefCell<usize> = RefCell::new(0);
+}
+
+/// Install (or clear, with `None`) the override for the current thread and reset
+/// the call counter. Returns nothing; the override stays until replaced.
+pub fn set_isqrt_hint_override(f: Option<IsqrtHintOverride>) {
+    ISQRT_OVERRIDE.with(|o| *o.borrow_mut() = f);
+    ISQRT_CALLS.with(|c| *c.borrow_mut() = 0);
+}
+
+/// Number of `isqrt` calls seen on this thread since the last `set_isqrt_hint_override`.
+pub fn isqrt_calls() -> usize {
+    ISQRT_CALLS.with(|c| *c.borrow())
+}
+
+pub(crate) fn isqrt_hint(den: Fq, was_square: bool, y: Fq) -> (bool, Fq) {
+    let idx = ISQRT_CALLS.with(|c| {
+        let mut c = c.borrow_mut();
+        let i = *c;
+        *c += 1;
+        i
+    });
+    ISQRT_OVERRIDE.with(|o| match o.borrow_mut().as_mut() {
+        Some(f) => f(idx, den, was_square, y),
+        None => (was_square, y),
+    })
+}
